@@ -55,7 +55,7 @@ PROBES = ["probes/write_seen_through_alias", "probes/relink_dropped_handle", "pr
           "probes/ghost_ctor_aliases_user_array", "probes/operator_on_view", "probes/upcast_on_relink",
           "probes/collection_with_identical_fields", "probes/storage_reread", "probes/ghost_cell_write_via_full_array",
           "probes/inplace_operand_aliases_target", "probes/copy_via_deepcopy", "probes/copy_via_pickle",
-          "probes/single_precision_plan"]
+          "probes/single_precision_plan", "probes/collection_from_mapping"]
 COMPONENTS = {
     "real": ["pde.fields.base.FieldBase", "pde.fields.datafield_base.DataFieldBase", "ScalarField", "VectorField",
              "Tensor2Field", "FieldCollection", "pde.storage.memory.MemoryStorage (round trip of one frame)",
@@ -158,7 +158,7 @@ def _gen_op(rng, kind, pc):
                 "how": rng.choice(["data", "data", "ghost"]), "dt": rng.random() < 0.25, "g": rng.randrange(2)}
     if kind == "fc":
         return {"op": "fc", "members": [s() for _ in range(rng.choice([1, 2, 2, 2, 3]))], "copy": rng.random() < 0.3,
-                "c": rng.random() < 0.5 * pc}
+                "c": rng.random() < 0.5 * pc, "how": rng.choice(["list", "list", "list", "dict", "tuple"])}
     if kind == "from_data":
         return {"op": "from_data", "classes": [rng.choice("SSVT") for _ in range(rng.choice([1, 2, 2, 3]))],
                 "ghost": rng.random() < 0.6, "c": rng.random() < pc, "g": rng.randrange(2)}
@@ -727,7 +727,13 @@ class _Sim:
             self.probe("collection_with_identical_fields")
         forced = bool(o["c"])
         kw = {"dtype": np.complex128} if forced else {}
-        fc = self.call(lambda: self.pde.FieldCollection(list(objs), copy_fields=bool(o["copy"]), **kw))
+        how = o.get("how", "list")
+        if how == "dict":  # a mapping: the keys become the labels of the fields
+            arg = {f"k{i}": ob for i, ob in enumerate(objs)}
+            self.probe("collection_from_mapping")
+        else:
+            arg = tuple(objs) if how == "tuple" else list(objs)
+        fc = self.call(lambda: self.pde.FieldCollection(arg, copy_fields=bool(o["copy"]), **kw))
         hC, members, bid = self._collection_from(fc, srcs, forced, copy_sem)
         if not copy_sem:
             # the original fields now point into the collection; every other handle onto their old buffers is dropped
